@@ -213,8 +213,34 @@ func runC10(p *core.Program, r *core.Report) {
 						r.Info("C10.guarded", mname+" (not a point operation)", pos, "unsynchronised "+strings.Join(uniq(bad), ", "))
 					}
 				}
-				if isPoint && len(fl.LockSites) > 0 {
-					r.Check(len(fl.LockSites) == 1, "C10.single-region", mname, pos, "one critical section", fmt.Sprintf("%d separate Lock() sites: the operation is not atomic", len(fl.LockSites)))
+				// critical sections of the operation: its own Lock() sites plus those of every
+				// same-receiver method it calls without holding the mutex
+				var sections func(f *locks.FuncLocks, depth int) []string
+				sections = func(f *locks.FuncLocks, depth int) []string {
+					var leaves []string
+					for range f.LockSites {
+						leaves = append(leaves, f.FI.Obj.Name()+"()")
+					}
+					if depth > 3 {
+						return leaves
+					}
+					for _, c := range f.Calls {
+						if c.Held == locks.Yes {
+							continue
+						}
+						if cf := tl.Funcs[c.Callee]; cf != nil && cf != f {
+							leaves = append(leaves, sections(cf, depth+1)...)
+						}
+					}
+					return leaves
+				}
+				if leaves := sections(fl, 0); isPoint && len(leaves) > 0 {
+					nsec := len(leaves)
+					via := leaves
+					how := fmt.Sprintf("%d critical sections (%s)", nsec, strings.Join(leaves, ", "))
+				// retrying one atomic operation (a polling loop over GetNoWait()) is not a compound operation
+					retry := len(fl.LockSites) == 0 && len(uniq(via)) == 1
+					r.Check(nsec == 1 || retry, "C10.single-region", mname, pos, "one critical section", how+": the operation is not atomic (a concurrent update between the sections is lost)")
 				}
 			}
 			// waits
